@@ -212,18 +212,18 @@ Definition doctor (i : nat) (fin : tree) : tree :=
 
 (* the root lost an event without counting it *)
 Example ex_doctored_root :
-  final_clauses ex_nt (doctor 0 ex_fin) = [clause 3 9 [ofNat 0]; clause 1 9 [ofNat 0]].
+  final_clauses ex_nt (doctor 0 ex_fin) = [clause 3 9 [ofNat 0]; clause 1 9 [ofNat 0]; clause 4 9 [ofNat 0]].
 Proof. vm_compute. reflexivity. Qed.
 (* a failure report did not reach the handler *)
 Example ex_doctored_handler :
-  final_clauses ex_nt (doctor 1 ex_fin) = [clause 3 9 [ofNat 1]; clause 2 9 [ofNat 1]].
+  final_clauses ex_nt (doctor 1 ex_fin) = [clause 3 9 [ofNat 1]; clause 2 9 [ofNat 1]; clause 4 9 [ofNat 1]].
 Proof. vm_compute. reflexivity. Qed.
 Example ex_doctored_not_nil :
   final_clauses ex_nt (doctor 0 ex_fin) <> [] /\ final_clauses ex_nt (doctor 1 ex_fin) <> [].
 Proof. rewrite ex_doctored_root, ex_doctored_handler. split; discriminate. Qed.
 (* and a wrong emission count is seen at the root *)
 Example ex_wrong_emitted :
-  final_clauses ex_nt (T [snapshot ex_s; L 4]) = [clause 3 9 [ofNat 0]; clause 1 9 [ofNat 0]].
+  final_clauses ex_nt (T [snapshot ex_s; L 4]) = [clause 3 9 [ofNat 0]; clause 1 9 [ofNat 0]; clause 4 9 [ofNat 0]].
 Proof. vm_compute. reflexivity. Qed.
 
 Print Assumptions final_clauses_sound.
